@@ -11,33 +11,62 @@ absent value reads as fill.
 namespace Zarrs.C02
 open Zarrs Zarrs.Codec Zarrs.Partial
 
-theorem storeHandle_ok (v : Bytes) : BHandleOk (storeHandle (some v)) v ∧ BHandleAbsent (storeHandle none) := by
-  sorry
+theorem storeHandle_ok (v : Bytes) : BHandleOk (storeHandle (some v)) v ∧ BHandleAbsent (storeHandle none) :=
+  ⟨storeHandle_some_ok v, storeHandle_none_absent⟩
+
+example : storeHandle (some [1, 2, 3, 4, 5]) [.fromStart 1 (some 2), .fromStart 3 none, .suffix 2] =
+    some (some [[2, 3], [4, 5], [4, 5]]) := by decide
 
 /-- checksum codecs (`StripSuffixPartialDecoder`, all three range forms) -/
 theorem stripSuffix_ok (sum : Bytes → Nat) (h : BHandle) (b : Bytes) (hh : BHandleOk h (checksumEnc sum b)) :
-    BHandleOk (stripSuffixPD 4 h) b := by
-  sorry
-theorem stripSuffix_absent (n : Nat) (h : BHandle) (hh : BHandleAbsent h) : BHandleAbsent (stripSuffixPD n h) := by
-  sorry
+    BHandleOk (stripSuffixPD 4 h) b :=
+  stripSuffixPD_ok h b (le32 (sum b)) hh
+
+example : BHandleOk (storeHandle (some (checksumEnc crc32c [1, 2, 3, 4, 5]))) (checksumEnc crc32c [1, 2, 3, 4, 5]) :=
+  (storeHandle_ok _).1
+example : stripSuffixPD 4 (storeHandle (some (checksumEnc crc32c [1, 2, 3, 4, 5])))
+    [.fromStart 1 (some 2), .fromStart 3 none, .suffix 2] = some (some [[2, 3], [4, 5], [4, 5]]) := by decide
+
+theorem stripSuffix_absent (n : Nat) (h : BHandle) (hh : BHandleAbsent h) : BHandleAbsent (stripSuffixPD n h) :=
+  stripSuffixPD_absent n h hh
+
+example : BHandleAbsent (storeHandle none) := (storeHandle_ok []).2
 
 /-- `ByteIntervalPartialDecoder` serves the interval (all three range forms) -/
 theorem byteInterval_ok (h : BHandle) (v : Bytes) (off len : Nat) (hh : BHandleOk h v) (hb : off + len ≤ v.length) :
-    BHandleOk (byteIntervalPD off len h) (slice v off (off + len)) := by
-  sorry
+    BHandleOk (byteIntervalPD off len h) (slice v off (off + len)) :=
+  byteIntervalPD_ok h v off len hh hb
+
+example : BHandleOk (storeHandle (some [1, 2, 3, 4, 5, 6, 7, 8])) [1, 2, 3, 4, 5, 6, 7, 8] ∧
+    2 + 4 ≤ ([1, 2, 3, 4, 5, 6, 7, 8] : Bytes).length := ⟨(storeHandle_ok _).1, by decide⟩
+example : byteIntervalPD 2 4 (storeHandle (some [1, 2, 3, 4, 5, 6, 7, 8]))
+    [.fromStart 1 (some 2), .fromStart 3 none, .suffix 2] = some (some [[4, 5], [6], [5, 6]]) := by decide
 
 /-- decode-all fallbacks and compressors: correct for any codec that inverts its encoding -/
 theorem decodeAll_ok (enc : Bytes → Bytes) (dec : Bytes → Option Bytes) (h : BHandle) (b : Bytes)
-    (hinv : dec (enc b) = some b) (hh : BHandleOk h (enc b)) : BHandleOk (decodeAllPD dec h) b := by
-  sorry
-theorem decodeAll_absent (dec : Bytes → Option Bytes) (h : BHandle) (hh : BHandleAbsent h) : BHandleAbsent (decodeAllPD dec h) := by
-  sorry
+    (hinv : dec (enc b) = some b) (hh : BHandleOk h (enc b)) : BHandleOk (decodeAllPD dec h) b :=
+  decodeAllPD_ok enc dec h b hinv hh
+
+example : (fun b : Bytes => some (b.take (b.length - 2))) ((fun b : Bytes => b ++ [9, 9]) [1, 2, 3]) = some [1, 2, 3] ∧
+    BHandleOk (storeHandle (some ((fun b : Bytes => b ++ [9, 9]) [1, 2, 3]))) ((fun b : Bytes => b ++ [9, 9]) [1, 2, 3]) :=
+  ⟨by decide, (storeHandle_ok _).1⟩
+
+theorem decodeAll_absent (dec : Bytes → Option Bytes) (h : BHandle) (hh : BHandleAbsent h) : BHandleAbsent (decodeAllPD dec h) :=
+  decodeAllPD_absent dec h hh
+
+example : BHandleAbsent (stripSuffixPD 4 (storeHandle none)) := stripSuffix_absent 4 _ (storeHandle_ok []).2
 
 /-- a cache is transparent -/
-theorem bytesCache_ok (h : BHandle) (v : Bytes) (hh : BHandleOk h v) : BHandleOk (bytesCachePD h) v := by
-  sorry
-theorem bytesCache_absent (h : BHandle) (hh : BHandleAbsent h) : BHandleAbsent (bytesCachePD h) := by
-  sorry
+theorem bytesCache_ok (h : BHandle) (v : Bytes) (hh : BHandleOk h v) : BHandleOk (bytesCachePD h) v :=
+  bytesCachePD_ok h v hh
+
+example : BHandleOk (stripSuffixPD 4 (storeHandle (some (checksumEnc fletcher32 [1, 2, 3])))) [1, 2, 3] :=
+  stripSuffix_ok fletcher32 _ _ (storeHandle_ok _).1
+
+theorem bytesCache_absent (h : BHandle) (hh : BHandleAbsent h) : BHandleAbsent (bytesCachePD h) :=
+  bytesCachePD_absent h hh
+
+example : BHandleAbsent (decodeAllPD (fun b => some b) (storeHandle none)) := decodeAll_absent _ _ (storeHandle_ok []).2
 
 /-- well-formed chunk: `n` elements of `es` bytes each -/
 def chunkOk (es : Nat) (sh : Shape) (xs : List Elem) : Prop := xs.length = prod sh ∧ ∀ x ∈ xs, x.length = es
@@ -46,28 +75,64 @@ def chunkOk (es : Nat) (sh : Shape) (xs : List Elem) : Prop := xs.length = prod 
 theorem bytesPD_ok (big : Bool) (es unit : Nat) (sh : Shape) (fill : Elem) (h : BHandle) (xs : List Elem)
     (hes : 0 < es) (hu : 0 < unit ∧ es % unit = 0) (hx : chunkOk es sh xs)
     (hh : BHandleOk h (bytesEnc big unit xs.flatten)) :
-    AHandleOk (bytesPD big es unit sh fill h) sh xs := by
-  sorry
+    AHandleOk (bytesPD big es unit sh fill h) sh xs :=
+  bytesPD_ok' big es unit sh fill h xs hes hu.1 hu.2 hx.1 hx.2 hh
+
+/-- six 4-byte elements (complex64-like: swap unit 2) in a 2×3 chunk -/
+private def exXs : List Elem := (List.range 6).map (fun i => [i, 10 + i, 20 + i, 30 + i])
+
+example : 0 < 4 ∧ (0 < 2 ∧ 4 % 2 = 0) ∧ chunkOk 4 [2, 3] exXs ∧
+    BHandleOk (storeHandle (some (bytesEnc true 2 exXs.flatten))) (bytesEnc true 2 exXs.flatten) :=
+  ⟨by decide, by decide, ⟨by decide, by decide⟩, (storeHandle_ok _).1⟩
+example : bytesPD true 4 2 [2, 3] [0, 0, 0, 0] (storeHandle (some (bytesEnc true 2 exXs.flatten)))
+    [⟨[0, 1], [2, 2]⟩, ⟨[1, 0], [1, 3]⟩, ⟨[2, 0], [0, 3]⟩] =
+    some [[[1, 11, 21, 31], [2, 12, 22, 32], [4, 14, 24, 34], [5, 15, 25, 35]],
+          [[3, 13, 23, 33], [4, 14, 24, 34], [5, 15, 25, 35]], []] := by decide
 
 /-- an absent value reads as fill through the `bytes` partial decoder -/
 theorem bytesPD_absent (big : Bool) (es unit : Nat) (sh : Shape) (fill : Elem) (h : BHandle) (hh : BHandleAbsent h) :
-    AHandleOk (bytesPD big es unit sh fill h) sh (List.replicate (prod sh) fill) := by
-  sorry
+    AHandleOk (bytesPD big es unit sh fill h) sh (List.replicate (prod sh) fill) :=
+  bytesPD_absent' big es unit sh fill h hh
+
+example : BHandleAbsent (bytesCachePD (storeHandle none)) := bytesCache_absent _ (storeHandle_ok []).2
+
+/-- the handle that serves a chunk directly (used to show the `AHandleOk` hypotheses satisfiable) -/
+private def direct (sh : Shape) (xs : List Elem) : AHandle := fun rs => some (rs.map (fun r => r.extract sh xs))
+private theorem direct_ok (sh : Shape) (xs : List Elem) : AHandleOk (direct sh xs) sh xs := fun _ _ => rfl
 
 theorem transposePD_ok (order : List Nat) (sh : Shape) (h : AHandle) (xs : List Elem)
     (ho : validOrder order sh.length = true) (hx : xs.length = prod sh)
     (hh : AHandleOk h (permute sh order) (transposeEnc order sh xs)) :
-    AHandleOk (transposePD order h) sh xs := by
-  sorry
+    AHandleOk (transposePD order h) sh xs :=
+  transposePD_ok' order sh h xs ho hx hh
+
+example : validOrder [2, 0, 1] [2, 1, 3].length = true ∧ exXs.length = prod [2, 1, 3] ∧
+    AHandleOk (direct (permute [2, 1, 3] [2, 0, 1]) (transposeEnc [2, 0, 1] [2, 1, 3] exXs))
+      (permute [2, 1, 3] [2, 0, 1]) (transposeEnc [2, 0, 1] [2, 1, 3] exXs) :=
+  ⟨by decide, by decide, direct_ok _ _⟩
+example : transposePD [2, 0, 1] (direct (permute [2, 1, 3] [2, 0, 1]) (transposeEnc [2, 0, 1] [2, 1, 3] exXs))
+    [⟨[0, 0, 1], [2, 1, 2]⟩, ⟨[1, 0, 0], [1, 1, 3]⟩] =
+    some [[[1, 11, 21, 31], [2, 12, 22, 32], [4, 14, 24, 34], [5, 15, 25, 35]],
+          [[3, 13, 23, 33], [4, 14, 24, 34], [5, 15, 25, 35]]] := by decide
 
 theorem squeezePD_ok (sh : Shape) (h : AHandle) (xs : List Elem) (hpos : ∀ d ∈ sh, 0 < d) (hx : xs.length = prod sh)
     (hh : AHandleOk h (AStage.squeeze.encShape sh) xs) :
-    AHandleOk (squeezePD sh h) sh xs := by
-  sorry
+    AHandleOk (squeezePD sh h) sh xs :=
+  squeezePD_ok' sh h xs hpos hx hh
+
+example : (∀ d ∈ [1, 2, 1, 3], 0 < d) ∧ exXs.length = prod [1, 2, 1, 3] ∧
+    AHandleOk (direct (AStage.squeeze.encShape [1, 2, 1, 3]) exXs) (AStage.squeeze.encShape [1, 2, 1, 3]) exXs :=
+  ⟨by decide, by decide, direct_ok _ _⟩
+example : squeezePD [1, 2, 1, 3] (direct [2, 3] exXs) [⟨[0, 0, 0, 1], [1, 2, 1, 2]⟩, ⟨[0, 1, 0, 0], [1, 1, 0, 3]⟩] =
+    some [[[1, 11, 21, 31], [2, 12, 22, 32], [4, 14, 24, 34], [5, 15, 25, 35]], []] := by decide
+/-- a fully squeezed chunk -/
+example : squeezePD [1, 1] (direct [1] [[7, 7]]) [⟨[0, 0], [1, 1]⟩, ⟨[0, 1], [1, 0]⟩] = some [[[7, 7]], []] := by decide
 
 theorem arrayCache_ok (sh : Shape) (h : AHandle) (xs : List Elem) (hx : xs.length = prod sh) (hh : AHandleOk h sh xs) :
-    AHandleOk (arrayCachePD sh h) sh xs := by
-  sorry
+    AHandleOk (arrayCachePD sh h) sh xs :=
+  arrayCachePD_ok sh h xs hx hh
+
+example : exXs.length = prod [2, 3] ∧ AHandleOk (direct [2, 3] exXs) [2, 3] exXs := ⟨by decide, direct_ok _ _⟩
 
 /-- lawful stages of a chain -/
 def bStageOk : BStage → Prop
@@ -83,6 +148,25 @@ def aStagesOk : List AStage → Shape → Prop
      | .squeeze => ∀ d ∈ sh, 0 < d
      | .cache => True) ∧ aStagesOk rest (st.encShape sh)
 
+/-- a lawful bytes-to-bytes stage keeps a served handle served -/
+theorem bStage_ok (st : BStage) (hs : bStageOk st) (b : Bytes) (g : BHandle) (hg : BHandleOk g (st.enc b)) :
+    BHandleOk (st.pd g) b := by
+  cases st with
+  | stripSuffix n sum =>
+    have : n = 4 := hs
+    subst this
+    exact stripSuffix_ok sum g b hg
+  | decodeAll enc dec => exact decodeAll_ok enc dec g b (hs b) hg
+  | cache => exact bytesCache_ok g b hg
+
+theorem aStagesOk_aOk (stages : List AStage) : ∀ sh, aStagesOk stages sh → aOk stages sh := by
+  induction stages with
+  | nil => intro _ _; trivial
+  | cons st rest ih =>
+    intro sh h
+    refine ⟨?_, ih _ h.2⟩
+    cases st <;> exact h.1
+
 /-- **C02 for chains**: for every chain of the modelled stages (any number of transposes / squeezes / caches, the
 `bytes` codec with either byte order, any number of checksum codecs, invertible compressors and caches in any order)
 and every chunk, the chain's partial decoder on the stored encoding answers every in-bounds list of regions with
@@ -90,13 +174,52 @@ exactly the regions of the chunk (= full decode followed by slicing) -/
 theorem chain_partial_eq_full_slice (c : Chain) (sh : Shape) (fill : Elem) (xs : List Elem)
     (hes : 0 < c.es) (hu : 0 < c.unit ∧ c.es % c.unit = 0) (hx : chunkOk c.es sh xs)
     (ha : aStagesOk c.a2a sh) (hb : ∀ st ∈ c.b2b, bStageOk st) :
-    AHandleOk (c.partialDecoder sh fill (storeHandle (some (c.encode sh xs)))) sh xs := by
-  sorry
+    AHandleOk (c.partialDecoder sh fill (storeHandle (some (c.encode sh xs)))) sh xs :=
+  chain_ok c sh fill xs hes hu.1 hu.2 hx.1 hx.2 (aStagesOk_aOk c.a2a sh ha)
+    (fun st hst b g hg => bStage_ok st (hb st hst) b g hg)
+
+/-- the chain of the executable sanity test: transpose, array cache, squeeze; big-endian 2-byte elements;
+crc32c, bytes cache, a decode-all "compressor", fletcher32 -/
+private def exChain : Chain :=
+  { a2a := [.transpose [1, 0], .cache, .squeeze], big := true, es := 2, unit := 2,
+    b2b := [.stripSuffix 4 crc32c, .cache,
+      .decodeAll (fun b => b ++ [9, 9]) (fun b => some (b.take (b.length - 2))), .stripSuffix 4 fletcher32] }
+private def exChunk : List Elem := (List.range 6).map (fun i => [i, 100 + i])
+private def exRegions : List Subset := [⟨[0, 1], [2, 2]⟩, ⟨[1, 0], [1, 3]⟩, ⟨[0, 0], [2, 3]⟩, ⟨[1, 1], [0, 1]⟩]
+
+private theorem exChain_b : ∀ st ∈ exChain.b2b, bStageOk st := by
+  intro st hst
+  simp only [exChain, List.mem_cons, List.not_mem_nil, or_false] at hst
+  rcases hst with rfl | rfl | rfl | rfl
+  · rfl
+  · trivial
+  · intro b
+    simp [List.take_left']
+  · rfl
+
+example : 0 < exChain.es ∧ (0 < exChain.unit ∧ exChain.es % exChain.unit = 0) ∧ chunkOk exChain.es [2, 3] exChunk ∧
+    aStagesOk exChain.a2a [2, 3] ∧ ∀ st ∈ exChain.b2b, bStageOk st :=
+  ⟨by decide, by decide, ⟨by decide, by decide⟩, ⟨by decide, trivial, by decide, trivial⟩, exChain_b⟩
+
+/-- the theorem's conclusion on the sanity-test chain, evaluated: the partial decoder's answer is the list of
+regions of the chunk -/
+example : exChain.partialDecoder [2, 3] [7, 7] (storeHandle (some (exChain.encode [2, 3] exChunk))) exRegions =
+    some (exRegions.map (fun r => r.extract [2, 3] exChunk)) := by decide
+example : exRegions.map (fun r => r.extract [2, 3] exChunk) =
+    [[[1, 101], [2, 102], [4, 104], [5, 105]], [[3, 103], [4, 104], [5, 105]],
+     [[0, 100], [1, 101], [2, 102], [3, 103], [4, 104], [5, 105]], []] := by decide
 
 /-- … and on an absent value with the fill value -/
 theorem chain_partial_absent (c : Chain) (sh : Shape) (fill : Elem)
     (hes : 0 < c.es) (hfill : fill.length = c.es) (ha : aStagesOk c.a2a sh) :
-    AHandleOk (c.partialDecoder sh fill (storeHandle none)) sh (List.replicate (prod sh) fill) := by
-  sorry
+    AHandleOk (c.partialDecoder sh fill (storeHandle none)) sh (List.replicate (prod sh) fill) :=
+  have _ := hes   -- not needed: an absent value is never decoded
+  have _ := hfill
+  chain_absent c sh fill (aStagesOk_aOk c.a2a sh ha)
+
+example : 0 < exChain.es ∧ ([7, 7] : Elem).length = exChain.es ∧ aStagesOk exChain.a2a [2, 3] :=
+  ⟨by decide, by decide, ⟨by decide, trivial, by decide, trivial⟩⟩
+example : exChain.partialDecoder [2, 3] [7, 7] (storeHandle none) exRegions =
+    some (exRegions.map (fun r => r.extract [2, 3] (List.replicate (prod [2, 3]) [7, 7]))) := by decide
 
 end Zarrs.C02
